@@ -123,6 +123,9 @@ struct World {
   void outcome(const char *op, bool ok) { c.label((std::string(ok ? "ok:" : "refused:") + op).c_str()); }
 
   size_t dsize(size_t used, size_t cap, size_t max) { return c.near({0, used, cap, 64, 128, 192}, max); }
+  // largest drawn size: as before for heap buffers; a memory mapped buffer (a page and more) gets its size on top, so that
+  // appends / inserts / reserves cross the end of the mapping
+  size_t mx(CBuf *b, size_t dflt) { return b && (flags(b) & BufferMapped) ? b->size + dflt : dflt; }
   size_t al(size_t v, size_t e) { if (e > 1 && !c.chance(20)) v -= v % e; return v; }
   size_t huge() { size_t k = (size_t)c.range(0, 130); return c.flip() ? SIZE_MAX - k : (size_t)LONG_MAX + 1 - k; }
   bool want_huge() { bool v = c.chance(4); if (v) c.label("arg:huge"); return v; }
@@ -272,7 +275,7 @@ struct World {
     CBuf *b = x.buf();
     size_t used = b ? b->used : 0, cap = b ? b->size : 0;
     bool hg = want_huge();
-    size_t len = hg ? huge() : c.near({0, cap - used, 64, 128, 192}, 300);
+    size_t len = hg ? huge() : c.near({0, cap - used, 64, 128, 192}, mx(b, 300));
     bool zero = hg || c.chance(64);
     std::vector<uint8_t> d = zero ? std::vector<uint8_t>(hg ? 0 : len, 0) : pattern(len);
     Pre p = pre(i, !hg && len > cap - used);
@@ -296,9 +299,9 @@ struct World {
     Handle &x = h[i];
     CBuf *b = x.buf();
     size_t used = b ? b->used : 0, cap = b ? b->size : 0, e = esz(b ? b->traits : 0);
-    size_t pos = al(dsize(used, cap, 300), e), base = std::max(used, pos);
+    size_t pos = al(dsize(used, cap, mx(b, 300)), e), base = std::max(used, pos);
     bool hg = want_huge();
-    size_t len = hg ? huge() : al(c.near({0, cap > base ? cap - base : 0, 64, 128, 192}, 300), e);
+    size_t len = hg ? huge() : al(c.near({0, cap > base ? cap - base : 0, 64, 128, 192}, mx(b, 300)), e);
     Pre p = pre(i, !hg && base + len > cap);
     c.logf("  mpt_array_insert(h%d, pos=%zu, len=%zu)   [%s]", i, pos, len, desc(i).c_str());
     void *r = mpt_array_insert(x.arr(), pos, len);
@@ -359,9 +362,9 @@ struct World {
     Handle &x = h[i];
     CBuf *b = x.buf();
     size_t used = b ? b->used : 0, cap = b ? b->size : 0, e = esz(b ? b->traits : 0);
-    size_t off = al(dsize(used, cap, 300), e);
+    size_t off = al(dsize(used, cap, mx(b, 300)), e);
     bool hg = want_huge();
-    size_t len = hg ? huge() : al(c.near({0, used > off ? used - off : 0, cap > off ? cap - off : 0, 64, 128, 192}, 300), e);
+    size_t len = hg ? huge() : al(c.near({0, used > off ? used - off : 0, cap > off ? cap - off : 0, 64, 128, 192}, mx(b, 300)), e);
     Pre p = pre(i, !hg && off + len > cap);
     c.logf("  mpt_array_slice(h%d, off=%zu, len=%zu)   [%s]", i, off, len, desc(i).c_str());
     void *r = mpt_array_slice(x.arr(), off, len);
@@ -392,7 +395,7 @@ struct World {
     size_t used = b ? b->used : 0, cap = b ? b->size : 0;
     const type_traits *bt = b ? b->traits : 0, *t = b ? bt : ft;
     if (c.chance(24)) { t = t == 0 ? TC : t == TC ? &T4 : 0; c.label("arg:other-traits"); }
-    size_t len = c.near({0, used, cap, cap + 1, 64, 128, 192}, 400);
+    size_t len = c.near({0, used, cap, cap + 1, 64, 128, 192}, mx(b, 400));
     uint32_t fl = b ? flags(b) : 0;
     Pre p = pre(i, len > cap);
     c.logf("  mpt_array_reserve(h%d, len=%zu, %s)   [%s]", i, len, tname(t), desc(i).c_str());
@@ -456,7 +459,7 @@ struct World {
     CBuf *b = x.buf();
     if (!b) { c.label("skip:detach"); return; }
     size_t used = b->used, cap = b->size, e = esz(b->traits);
-    size_t len = al(c.near({0, used, used ? used - 1 : 0, cap, cap + 1, 64, 128, 192}, 400), e);
+    size_t len = al(c.near({0, used, used ? used - 1 : 0, cap, cap + 1, 64, 128, 192}, mx(b, 400)), e);
     Pre p = pre(i, len > cap);
     c.logf("  h%d: buf->detach(%zu)   [%s]", i, len, desc(i).c_str());
     CBuf *n = b->vptr->detach(b, len);
@@ -484,7 +487,7 @@ struct World {
     CBuf *b = x.buf();
     size_t used = b->used, cap = b->size, e = esz(b->traits);
     size_t pos = al(dsize(used, cap, cap + 70), e), base = std::max(used, pos);
-    size_t len = al(c.near({0, cap > base ? cap - base : 0, 1, 64}, 300), e);
+    size_t len = al(c.near({0, cap > base ? cap - base : 0, 1, 64}, mx(b, 300)), e);
     bool must = base + len > cap;
     Pre p = pre(i, false);
     c.logf("  mpt_buffer_insert(h%d, pos=%zu, len=%zu)%s   [%s]", i, pos, len, must ? " out of range" : "", desc(i).c_str());
@@ -512,7 +515,7 @@ struct World {
     CBuf *b = x.buf();
     size_t used = b->used, cap = b->size, e = esz(b->traits);
     size_t off = al(dsize(used, cap, cap + 70), e);
-    size_t len = al(c.near({0, used > off ? used - off : 0, used, 1, 64}, 300), e);
+    size_t len = al(c.near({0, used > off ? used - off : 0, used, 1, 64}, mx(b, 300)), e);
     bool must = len ? (len > used || off > used - len) : off > used;
     c.logf("  mpt_buffer_cut(h%d, off=%zu, len=%zu)%s   [%s]", i, off, len, must ? " out of range" : "", desc(i).c_str());
     ssize_t r = mpt_buffer_cut(lib(b), off, len);
@@ -537,7 +540,7 @@ struct World {
     if (c.chance(12)) { t = t == 0 ? TC : t == TC ? &T4 : 0; c.label("arg:other-traits"); }
     size_t pos = al(dsize(used, cap, cap + 70), e);
     bool hg = want_huge();
-    size_t len = hg ? huge() : al(c.near({0, cap > pos ? cap - pos : 0, used > pos ? used - pos : 0, 1, 64}, 300), e);
+    size_t len = hg ? huge() : al(c.near({0, cap > pos ? cap - pos : 0, used > pos ? used - pos : 0, 1, 64}, mx(b, 300)), e);
     bool must = hg || pos + len > cap;
     bool zero = hg || c.chance(48);
     std::vector<uint8_t> d = zero ? std::vector<uint8_t>(hg ? 0 : len, 0) : pattern(len);
@@ -646,8 +649,11 @@ struct World {
     int fl = kFlags[c.weighted({3, 2, 2, 1})];
     size_t want = c.near({0, 64, 192}, 300);
     if (want % 4 == 3) fl |= 0x40;   // some other user flag (derived from an existing draw): stored and inherited like NoCopy
-    CBuf *b = reinterpret_cast<CBuf *>(_mpt_buffer_alloc(want, fl));
-    VP_CHECK(c, b, "alloc-failed", "_mpt_buffer_alloc(%zu, %#x) returned NULL", want, fl);
+    // raw flavour, drawn size = 6 mod 8 (no extra draw): a memory mapped buffer (_mpt_buffer_map, one page and more)
+    bool mapped = flavor == FRaw && (want & 7) == 6;
+    CBuf *b = reinterpret_cast<CBuf *>(mapped ? _mpt_buffer_map(want, fl) : _mpt_buffer_alloc(want, fl));
+    VP_CHECK(c, b, "alloc-failed", "%s(%zu, %#x) returned NULL", mapped ? "_mpt_buffer_map" : "_mpt_buffer_alloc", want, fl);
+    if (mapped) { c.label("seed:mapped"); VP_CHECK(c, flags(b) & BufferMapped, "alloc-failed", "_mpt_buffer_map returned flags %#x", flags(b)); }
     VP_CHECK(c, b->size >= want && !b->used, "alloc-size", "_mpt_buffer_alloc(%zu) returned size %zu used %zu", want, b->size, b->used);
     size_t e = esz(ft), n = c.near({0, b->size, want}, b->size);
     n -= n % e;
@@ -660,7 +666,7 @@ struct World {
     x.uf = (uint32_t)fl & ~(uint32_t)BufferImmutable;
     for (size_t k = 0; k < frozen.size();) { if (frozen[k].b == b) frozen.erase(frozen.begin() + k); else ++k; }
     if (fl & BufferImmutable) frozen.push_back(Frozen{b, d});
-    c.logf("  h%d := _mpt_buffer_alloc(%zu, flags=%#x) content %s, %zu bytes %s", i, want, fl, tname(ft), n, hex(d.data(), d.size(), 8).c_str());
+    c.logf("  h%d := %s(%zu, flags=%#x) content %s, %zu bytes %s", i, mapped ? "_mpt_buffer_map" : "_mpt_buffer_alloc", want, fl, tname(ft), n, hex(d.data(), d.size(), 8).c_str());
     c.label(!(fl & 3) ? "seed:plain" : (fl & BufferImmutable) ? "seed:immutable" : "seed:nocopy");
     verify("seed", i, false);
   }
